@@ -12,9 +12,10 @@
                         The blocking calls (waitReady, waitStop, waitOptionsSet) are actions
                         whose step is guarded there.
 
-    The boolean [g] ("ponderhit_guarded") selects between the code as it is in the unchanged
-    tree ([g = false]: `engine->ponderHit()` without a null test, uciprotocol.cpp:290-291) and
-    the repaired code ([g = true]: `if (engine) engine->ponderHit()`). *)
+    The boolean [g] ("ponderhit_guarded") selects between the dispatch of `ponderhit` as it was
+    before /repo commit 4d13f7c ([g = false]: `engine->ponderHit()` without a null test) and the
+    repaired code ([g = true]: `if (engine) engine->ponderHit()`).  The check decides from the
+    behaviour of the binary on the witness script [ponderhit] which variant the tree matches. *)
 From Coq Require Import List Bool Ascii String ZArith NArith.
 Import ListNotations.
 Local Open Scope string_scope.
